@@ -95,6 +95,9 @@ type Enc struct {
 	ifaces      map[string]*types.Interface
 	inlineStack []*ssa.Function
 	bounds      strings.Builder
+	mapPoints   map[string][]ssa.Value
+	pointLoop   *LoopInfo
+	pointFrame  *Frame
 	mergeOf     map[string]mergeInfo // merged heap constant -> the alternatives it was built from
 }
 
@@ -114,6 +117,7 @@ type LoopInfo struct {
 	varExprs []Clause
 	inferred bool
 	framed   map[string]bool
+	mapPoints map[string][]ssa.Value
 }
 
 type retSite struct {
